@@ -1234,6 +1234,20 @@ def _list_append(it, l, x):
     l.append(x)
 
 
+def _set_add(it, s, x):
+    """set.add with a segment string: kept by identity (membership is decided by contains() as a disjunction of
+    equalities, so a semantic duplicate is harmless; len()/iteration of such a set stay unsupported)"""
+    if isinstance(x, SegStr):
+        set.add(s, x)
+        return None
+    if has_sym(x):
+        raise Unsupported("set.add of a symbolic element")
+    try:
+        set.add(s, x)
+    except Exception as e:
+        raise _PyExc(e)
+
+
 def _list_remove(it, l, x):
     for i, y in enumerate(l):
         if it.truth(equal(it, x, y)):
@@ -1443,6 +1457,7 @@ _METHODS = {
     (SymSet, "add"): _symset_add,
     (SymSet, "remove"): _symset_remove,
     (SymSet, "discard"): _symset_discard,
+    (set, "add"): _set_add,
     (list, "append"): _list_append,
     (list, "remove"): _list_remove,
     (list, "index"): _list_index,
